@@ -3,6 +3,8 @@ package exec
 import (
 	"fmt"
 	"os"
+	"sync"
+	"text/template/parse"
 	"go/token"
 	"go/types"
 	"sort"
@@ -26,6 +28,8 @@ type Program struct {
 	ModelsPkg *ssa.Package
 	ApiPath   string // import path of the harness API package
 	Summarize map[string]bool // functions explored as merged pure-callee summaries
+	TreeMu    sync.Mutex
+	TreeCache map[string]*parse.Tree
 }
 
 type pathEnd struct {
